@@ -719,6 +719,13 @@ func (histEngine) generate(property string, seed int64, index int, tier string) 
 			op.Steps[r.Intn(len(op.Steps))].Edit = &EditFault{Kind: "append_record", File: g.targetOf(file)}
 			op.Steps = append(op.Steps, TimeStep{AdvanceS: r.Range(61, 200)})
 			delete(g.pred, g.targetOf(file))
+		} else if property == "C03" && op.mutating() && r.Chance(1, 12) {
+			// the write fails (disk full) before or after a part of the new text is on disk: klog must say so;
+			// if it reports success all the same, the lines of the file must be there
+			op.Plan.WriteNth = 1
+			op.Plan.WriteFault = r.Pick([]string{"error_before", "error_after", "error_after"})
+			op.Plan.WriteCut = r.Intn(4096)
+			delete(g.pred, g.targetOf(file))
 		} else if property == "C04" {
 			switch k := r.Intn(40); {
 			case k == 0:
@@ -839,6 +846,10 @@ func (g *genState) genC05Faults(op *Op, file string) {
 		if r.Chance(3, 4) {
 			op.Steps = append(op.Steps, TimeStep{AdvanceS: r.Range(61, 200)})
 		}
+		delete(g.pred, name)
+	case (k == 13 || k == 14 || k == 15) && op.mutating() && op.Kind != "pause" && name != "":
+		// somebody else (an editor, a sync tool) saves the file between this command's read and its write
+		op.WriteEdit = &EditFault{Kind: r.Pick([]string{"drop_first_record", "append_record", "remove", "drop_first_record"}), File: name}
 		delete(g.pred, name)
 	case k == 10 || k == 11:
 		// only hand-written write paths (open/rename/close/sync) can be hit by this one
